@@ -3,6 +3,7 @@
 mod mergex;
 mod model;
 mod sched;
+mod schedapi;
 mod spillx;
 mod strat;
 mod tables;
@@ -320,7 +321,7 @@ fn strategy_tags(chain: &[Op], n: usize, workers_max: usize, thorough: bool, red
             (sc, m)
         };
         morsels.dedup();
-        let workers: Vec<usize> = if reduced_par { vec![1, 3] } else { (1..=workers_max).collect() };
+        let workers: Vec<usize> = if reduced_par { vec![1, 3] } else if !thorough { vec![1, 2, 4] } else { (1..=workers_max).collect() };
         for (s, c) in src_chunk {
             for m in &morsels {
                 for &w in &workers {
@@ -510,6 +511,7 @@ fn replay(case: &J, scratch: &Path) -> i32 {
                 _ => spillx::run_part(&spillx::PartCase::from_json(case).unwrap_or_else(|| vcore::machinery_failure("replay: bad case")), scratch),
             },
             Some("A-merge") => mergex::run_case(&mergex::MCase::from_json(case).unwrap_or_else(|| vcore::machinery_failure("replay: bad case"))),
+            Some("A-morsel") => schedapi::replay(case),
             Some("B-sched") => sched::run_schedule(&sched::SCase::from_json(case).unwrap_or_else(|| vcore::machinery_failure("replay: bad case"))).founds,
             _ => vcore::machinery_failure("replay: unknown part"),
         }
@@ -525,61 +527,45 @@ fn replay(case: &J, scratch: &Path) -> i32 {
 }
 
 fn main() {
+    // The executors under test allocate a 2048-slot column vector per chunk; with glibc's default
+    // trimming every free() of such a vector ends in madvise().  The malloc tunables are only read at
+    // process start, so re-exec this binary once with them set (children inherit them).
+    if std::env::var_os("MALLOC_TRIM_THRESHOLD_").is_none() {
+        if let Ok(exe) = std::env::current_exe() {
+            let st = std::process::Command::new(exe).args(std::env::args_os().skip(1)).env("MALLOC_TRIM_THRESHOLD_", "2000000000").env("MALLOC_MMAP_THRESHOLD_", "33554432").status();
+            if let Ok(st) = st {
+                std::process::exit(st.code().unwrap_or(2));
+            }
+        }
+    }
     std::process::exit(run(vcheck::entry()));
 }
 
-fn run(args: vcore::Args) -> i32 {
-    let scratch = vcore::scratch_dir("c17");
-    if let Some(p) = args.replay.as_deref() {
-        let case = vcore::read_replay_case(p);
-        let rc = replay(&case, &scratch);
-        let _ = std::fs::remove_dir_all(&scratch);
-        return rc;
-    }
-    let tier = args.tier;
-    let thorough = tier == Tier::Thorough;
-    // debugging aid: time every configuration of one item, e.g. C17_ONLY=unique:2049:sort1
-    if let Ok(only) = std::env::var("C17_ONLY") {
-        let p: Vec<&str> = only.split(':').collect();
-        let (profile, n, chain) = (p[0], p[1].parse::<usize>().unwrap(), model::parse_chain(&p[2..].join(":")).unwrap());
-        let input = tables::table(profile, n);
-        let mut cache = model::Cache::default();
-        let (tags, _) = strategy_tags(&chain, n, tier.pick(4, 16), thorough, false);
-        for t in tags {
-            let t0 = std::time::Instant::now();
-            let (f, _) = run_config_case(profile, n, &input, &mut cache, &chain, &t, 0, &scratch);
-            println!("{:>9.3} ms  {t}  {}", t0.elapsed().as_secs_f64() * 1e3, f.iter().map(|x| x.key()).collect::<Vec<_>>().join(" | "));
-        }
-        let _ = std::fs::remove_dir_all(&scratch);
-        return 0;
-    }
-    let mut rep = Report::new("C17", tier, "exploration");
-    rep.rule = "Part A: every (table profile x size x operator chain) is executed under every strategy configuration (pull tree, push Pipeline, tracked/materialising/spilling push operators, ParallelPipeline x source layout x morsel size x chunk size x workers + merge phase with the helpers of parallel/merge.rs) and judged against a plain-Rust reference on rows plus agreement with the pull result; ExternalSort / PartitionedState under every budget; merge helpers on all 3^n splits of every small input. Part B: every assignment of morsels to workers x every completion order (and all interleavings of the gate protocol for the smallest sizes) is forced on the real threaded ParallelPipeline through gates in the harness-supplied source/factory. A case is distinct by (profile, size, chain, configuration) resp. (helper, alphabet, input, split) resp. (chain, table, schedule); non-trivial when the table has >= 2 rows and the reference result is non-empty (A), the input has >= 2 elements in >= 2 runs (merge), >= 2 workers got a morsel (B)".into();
-    let mut agg = Agg::default();
-    let cores = vcore::cores();
-    // debugging aid: C17_PARTS=cfg,spill,merge,sched restricts the run (evidence then covers those parts only)
-    let parts_env = std::env::var("C17_PARTS").unwrap_or_else(|_| "cfg,spill,merge,sched".into());
-    let on = |p: &str| parts_env.split(',').any(|x| x == p);
-    let verbose = std::env::var("C17_VERBOSE").is_ok();
+// ---------------------------------------------------------------------------
+// enumeration of the thread-heavy work (shared by the parent and its shard processes)
+// ---------------------------------------------------------------------------
 
-    // ---- Part A: configuration product -----------------------------------
+/// (profile, size, chain, workers_max, reduced parallel product)
+type Item = (String, usize, Vec<Op>, usize, bool);
+
+const SMALL_SIZES: [usize; 8] = [0, 1, 2, 3, 6, 7, 8, 13];
+const LARGE_SIZES: [usize; 6] = [1023, 1024, 1025, 2047, 2048, 2049];
+
+fn cfg_items(thorough: bool) -> Vec<Item> {
     // sizes: 0,1,2 and one below / at / one above every morsel size (forced 1 and 7, native 1024) and chunk size (3, 2048)
-    let small_sizes: Vec<usize> = vec![0, 1, 2, 3, 6, 7, 8, 13];
-    let large_sizes: Vec<usize> = vec![1023, 1024, 1025, 2047, 2048, 2049];
-    let sizes: Vec<usize> = small_sizes.iter().chain(large_sizes.iter()).copied().collect();
-    // (profile, size, chain, workers_max, reduced parallel product)
-    let mut items: Vec<(String, usize, Vec<Op>, usize, bool)> = vec![];
+    let sizes: Vec<usize> = SMALL_SIZES.iter().chain(LARGE_SIZES.iter()).copied().collect();
+    let mut items: Vec<Item> = vec![];
     let structural = ["plain", "unique"];
     for profile in tables::PROFILES {
         for &n in &sizes {
             let is_struct = structural.contains(&profile);
-            // value-class profiles do not depend on morsel / chunk boundaries: three sizes in the quick tier
+            // value-class profiles do not depend on morsel / chunk boundaries: three sizes and the reduced parallel product in the quick tier
             if !thorough && !is_struct && ![0usize, 2, 13].contains(&n) {
                 continue;
             }
             let wm = if thorough && is_struct { 16 } else { 4 };
             for c in single_chains() {
-                items.push((profile.to_string(), n, c, wm, false));
+                items.push((profile.to_string(), n, c, wm, !thorough && !is_struct));
             }
         }
     }
@@ -598,170 +584,142 @@ fn run(args: vcore::Args) -> i32 {
             }
         }
     }
-    let cfg_tables: std::collections::BTreeSet<(String, usize)> = items.iter().map(|i| (i.0.clone(), i.1)).collect();
-    let mut ran: BTreeMap<(String, String), std::collections::BTreeSet<String>> = BTreeMap::new();
-    for (p, _, c, _, _) in &items {
-        ran.entry(("A-config".to_string(), model::chain_sig(c))).or_default().insert(p.clone());
-    }
-    if !on("cfg") {
-        items.clear();
-    }
     // big items first for load balance
     items.sort_by(|a, b| b.1.cmp(&a.1));
-    let t0 = std::time::Instant::now();
-    let outs = vcore::par_map(&items, cores, |_, (p, n, c, wm, red)| run_config_item(p, *n, c, *wm, thorough, *red, &scratch));
-    let mut cfg_evals = 0u64;
-    let mut skipped = 0u64;
-    for o in outs {
-        rep.evaluations += o.evals;
-        cfg_evals += o.evals;
-        skipped += o.skipped;
-        for h in o.nontrivial {
-            rep.nontrivial_hash(h);
+    items
+}
+
+struct BUnit {
+    profile: String,
+    n: usize,
+    morsel: usize,
+    chain: String,
+    workers: usize,
+    mode: String,
+    schedules: Vec<Vec<usize>>,
+}
+struct SchedPlan {
+    units: Vec<BUnit>,
+    canonical: u64,
+    interleavings: u64,
+    inter_sizes: Vec<J>,
+    chains: Vec<String>,
+}
+fn sched_plan(thorough: bool) -> SchedPlan {
+    let chains: Vec<&str> = if thorough { vec!["filter", "sort1", "distinct", "agg", "agg-group", "limit:2", "sort1>limit:2", "filter>agg-group", "project>sort2"] } else { vec!["sort1", "distinct", "agg-group", "sort1>limit:2"] };
+    // (profile, n, morsel): 4 morsels each (the last one short for n = 7)
+    let tables: Vec<(&str, usize, usize)> = if thorough { vec![("plain", 8, 2), ("plain", 7, 2), ("unique", 8, 2)] } else { vec![("plain", 7, 2), ("unique", 8, 2)] };
+    let mut units: Vec<BUnit> = vec![];
+    let (mut canonical, mut interleavings) = (0u64, 0u64);
+    let mut push_canon = |profile: &str, n: usize, morsel: usize, chain: &str, w: usize| {
+        let m = n.div_ceil(morsel);
+        for assign in vcore::sequences(w, m) {
+            let scheds: Vec<Vec<usize>> = sched::permutations(w).iter().map(|p| sched::canonical(&assign, p, w)).collect();
+            canonical += scheds.len() as u64;
+            units.push(BUnit { profile: profile.into(), n, morsel, chain: chain.into(), workers: w, mode: "canonical".into(), schedules: scheds });
         }
+    };
+    for (profile, n, morsel) in &tables {
+        for chain in &chains {
+            for w in 1..=3usize {
+                push_canon(profile, *n, *morsel, chain, w);
+            }
+        }
+    }
+    if thorough {
+        for (profile, n, morsel) in [("plain", 12usize, 2usize), ("unique", 11, 2)] {
+            for chain in &chains {
+                push_canon(profile, n, morsel, chain, 4);
+            }
+        }
+    }
+    // all interleavings of the gate protocol for the smallest shapes
+    let inter_shapes: Vec<(usize, usize)> = if thorough { vec![(2, 2), (2, 3), (2, 4), (3, 2), (3, 3), (3, 4)] } else { vec![(2, 2), (2, 3), (3, 2)] };
+    let mut inter_sizes = vec![];
+    for (w, m) in &inter_shapes {
+        let all = sched::all_interleavings(*w, *m);
+        inter_sizes.push(json!({"workers": w, "morsels": m, "release_sequences": all.len()}));
+        for chain in &chains {
+            for block in all.chunks(32) {
+                interleavings += block.len() as u64;
+                units.push(BUnit { profile: "plain".into(), n: 2 * m, morsel: 2, chain: chain.to_string(), workers: *w, mode: "interleavings".into(), schedules: block.to_vec() });
+            }
+        }
+    }
+    SchedPlan { units, canonical, interleavings, inter_sizes, chains: chains.iter().map(|s| s.to_string()).collect() }
+}
+
+#[derive(Default)]
+struct ShardOut {
+    evals: u64,
+    skipped: u64,
+    nontrivial: Vec<u64>,
+    samples: Vec<J>,
+    founds: Vec<(Found, u64)>,
+}
+impl ShardOut {
+    fn to_json(&self) -> J {
+        json!({
+            "evals": self.evals, "skipped": self.skipped,
+            "nontrivial": self.nontrivial.iter().map(|h| format!("{h:x}")).collect::<Vec<_>>(),
+            "samples": self.samples,
+            "founds": self.founds.iter().map(|(f, n)| json!({"sig": f.sig, "boundary": f.boundary, "rank": [f.rank.0, f.rank.1], "case": f.case, "detail": f.detail, "count": n})).collect::<Vec<_>>(),
+        })
+    }
+    fn from_json(v: &J) -> Option<ShardOut> {
+        let mut o = ShardOut { evals: v["evals"].as_u64()?, skipped: v["skipped"].as_u64()?, ..Default::default() };
+        for h in v["nontrivial"].as_array()? {
+            o.nontrivial.push(u64::from_str_radix(h.as_str()?, 16).ok()?);
+        }
+        o.samples = v["samples"].as_array()?.clone();
+        for f in v["founds"].as_array()? {
+            let sig: Vec<(String, String)> = f["sig"].as_array()?.iter().map(|p| Some((p[0].as_str()?.to_string(), p[1].as_str()?.to_string()))).collect::<Option<_>>()?;
+            o.founds.push((Found { sig, boundary: f["boundary"].as_str()?.into(), rank: (f["rank"][0].as_u64()? as usize, f["rank"][1].as_u64()? as usize), case: f["case"].clone(), detail: f["detail"].as_str()?.into() }, f["count"].as_u64()?));
+        }
+        Some(o)
+    }
+    fn absorb(&mut self, o: ShardOut) {
+        self.evals += o.evals;
+        self.skipped += o.skipped;
+        self.nontrivial.extend(o.nontrivial);
+        for s in o.samples {
+            if self.samples.len() < 2 {
+                self.samples.push(s);
+            }
+        }
+        self.founds.extend(o.founds);
+    }
+}
+
+fn run_cfg_shard(items: &[Item], shard: usize, nshards: usize, jobs: usize, thorough: bool, scratch: &Path) -> ShardOut {
+    let mine: Vec<&Item> = items.iter().enumerate().filter(|(i, _)| i % nshards == shard).map(|(_, x)| x).collect();
+    let outs = vcore::par_map(&mine, jobs, |_, (p, n, c, wm, red)| run_config_item(p, *n, c, *wm, thorough, *red, scratch));
+    let mut so = ShardOut::default();
+    let mut agg = Agg::default();
+    for o in outs {
+        so.evals += o.evals;
+        so.skipped += o.skipped;
+        so.nontrivial.extend(o.nontrivial);
         if let Some(s) = o.sample {
-            if rep.samples.len() < 2 {
-                rep.sample(s);
+            if so.samples.len() < 2 {
+                so.samples.push(s);
             }
         }
         for (f, k) in o.founds {
             agg.add_n(f, k);
         }
     }
-    let t_cfg = t0.elapsed().as_secs_f64();
-    if verbose {
-        eprintln!("config product: {cfg_evals} evaluations in {t_cfg:.1}s");
-    }
+    so.founds = agg.m.into_values().collect();
+    so
+}
 
-    // ---- Part A: spill engines --------------------------------------------
-    let t0 = std::time::Instant::now();
-    let ext = if on("spill") { spillx::ext_cases(thorough) } else { vec![] };
-    let outs = vcore::par_map(&ext, cores, |_, c| spillx::run_ext(c, &scratch));
-    for (c, o) in ext.iter().zip(outs) {
-        ran.entry(("A-spill".to_string(), c.keys.clone())).or_default().insert(c.profile.clone());
-        rep.evaluations += 1;
-        if c.n >= 2 && c.run_len > 0 && c.n.div_ceil(c.run_len) >= 2 {
-            rep.nontrivial(&("ext", &c.profile, c.n, &c.keys, c.run_len, c.mem_last));
-        }
-        for f in o {
-            agg.add(f);
-        }
-    }
-    if let Some(c) = ext.iter().find(|c| c.n == 33 && c.run_len == 7 && c.mem_last) {
-        rep.sample(c.json());
-    }
-    let parts = if on("spill") { spillx::part_cases(thorough) } else { vec![] };
-    let outs = vcore::par_map(&parts, cores, |_, c| spillx::run_part(c, &scratch));
-    for (c, o) in parts.iter().zip(outs) {
-        ran.entry(("A-spill".to_string(), "group-accumulate".to_string())).or_default().insert(c.profile.clone());
-        rep.evaluations += 1;
-        if c.n >= 2 && c.policy != "never" {
-            rep.nontrivial(&("part", &c.profile, c.n, c.partitions, &c.policy, c.two_col_key));
-        }
-        for f in o {
-            agg.add(f);
-        }
-    }
-    if let Some(c) = parts.iter().find(|c| c.n == 40 && c.policy == "lru" && c.partitions == 2) {
-        rep.sample(c.json());
-    }
-    let t_spill = t0.elapsed().as_secs_f64();
-
-    // ---- Part A: merge helpers on all splits --------------------------------
-    let t0 = std::time::Instant::now();
-    let units = if on("merge") { mergex::units(thorough) } else { vec![] };
-    let outs = vcore::par_map(&units, cores, |_, (helper, alpha, keys, syms)| {
-        let mut founds = vec![];
-        let mut evals = 0u64;
-        let mut nt = vec![];
-        for assign in mergex::assignments(syms.len()) {
-            let c = mergex::MCase { helper: helper.clone(), alphabet: alpha.clone(), keys: *keys, syms: syms.clone(), assign };
-            founds.extend(mergex::run_case(&c));
-            evals += 1;
-            let mut used = c.assign.clone();
-            used.sort();
-            used.dedup();
-            if syms.len() >= 2 && used.len() >= 2 {
-                nt.push(vcore::hash_of(&(helper, alpha, keys, syms, &c.assign)));
-            }
-        }
-        (evals, nt, founds)
-    });
-    let mut merge_evals = 0u64;
-    for (e, nt, f) in outs {
-        rep.evaluations += e;
-        merge_evals += e;
-        for h in nt {
-            rep.nontrivial_hash(h);
-        }
-        for x in f {
-            agg.add(x);
-        }
-    }
-    rep.sample(mergex::MCase { helper: "sorted-runs".into(), alphabet: "int".into(), keys: 2, syms: vec![0, 1, 1, 3], assign: vec![0, 1, 2, 1] }.json());
-    let t_merge = t0.elapsed().as_secs_f64();
-
-    // ---- Part B: schedules --------------------------------------------------
-    let t0 = std::time::Instant::now();
-    let b_chains: Vec<&str> = if thorough { vec!["filter", "sort1", "distinct", "agg", "agg-group", "limit:2", "sort1>limit:2", "filter>agg-group", "project>sort2"] } else { vec!["sort1", "distinct", "agg-group", "limit:2", "sort1>limit:2", "filter>agg"] };
-    // (profile, n, morsel): 4 morsels each (the last one short for n = 7)
-    let b_tables: Vec<(&str, usize, usize)> = if thorough { vec![("plain", 8, 2), ("plain", 7, 2), ("unique", 8, 2)] } else { vec![("plain", 7, 2), ("unique", 8, 2)] };
-    struct BUnit {
-        profile: String,
-        n: usize,
-        morsel: usize,
-        chain: String,
-        workers: usize,
-        mode: String,
-        schedules: Vec<Vec<usize>>,
-    }
-    let mut bunits: Vec<BUnit> = vec![];
-    let mut canonical_count = 0u64;
-    let mut inter_count = 0u64;
-    let push_canon = |bunits: &mut Vec<BUnit>, cnt: &mut u64, profile: &str, n: usize, morsel: usize, chain: &str, w: usize| {
-        let m = n.div_ceil(morsel);
-        for assign in vcore::sequences(w, m) {
-            let scheds: Vec<Vec<usize>> = sched::permutations(w).iter().map(|p| sched::canonical(&assign, p, w)).collect();
-            *cnt += scheds.len() as u64;
-            bunits.push(BUnit { profile: profile.into(), n, morsel, chain: chain.into(), workers: w, mode: "canonical".into(), schedules: scheds });
-        }
-    };
-    for (profile, n, morsel) in &b_tables {
-        for chain in &b_chains {
-            for w in 1..=3usize {
-                push_canon(&mut bunits, &mut canonical_count, profile, *n, *morsel, chain, w);
-            }
-        }
-    }
-    if thorough {
-        for (profile, n, morsel) in [("plain", 12usize, 2usize), ("unique", 11, 2)] {
-            for chain in &b_chains {
-                push_canon(&mut bunits, &mut canonical_count, profile, n, morsel, chain, 4);
-            }
-        }
-    }
-    // all interleavings of the gate protocol for the smallest shapes
-    let inter_shapes: Vec<(usize, usize)> = if thorough { vec![(2, 2), (2, 3), (2, 4), (3, 2), (3, 3), (3, 4)] } else { vec![(2, 2), (2, 3), (2, 4), (3, 2)] };
-    let mut inter_sizes = vec![];
-    for (w, m) in &inter_shapes {
-        let all = sched::all_interleavings(*w, *m);
-        inter_sizes.push(json!({"workers": w, "morsels": m, "release_sequences": all.len()}));
-        for chain in &b_chains {
-            for block in all.chunks(64) {
-                inter_count += block.len() as u64;
-                bunits.push(BUnit { profile: "plain".into(), n: 2 * m, morsel: 2, chain: chain.to_string(), workers: *w, mode: "interleavings".into(), schedules: block.to_vec() });
-            }
-        }
-    }
-    if !on("sched") {
-        bunits.clear();
-    }
-    for u in &bunits {
-        ran.entry(("B-sched".to_string(), model::chain_sig(&model::parse_chain(&u.chain).unwrap()))).or_default().insert(u.profile.clone());
-    }
-    // baseline per (table, chain): one worker
+fn run_sched_shard(plan: &SchedPlan, shard: usize, nshards: usize, jobs: usize) -> ShardOut {
+    let mine: Vec<&BUnit> = plan.units.iter().enumerate().filter(|(i, _)| i % nshards == shard).map(|(_, x)| x).collect();
+    let mut so = ShardOut::default();
+    let mut agg = Agg::default();
+    // one-worker baseline per (table, chain)
     let mut baselines: BTreeMap<(String, usize, usize, String), Option<Rows>> = BTreeMap::new();
-    for u in &bunits {
+    for u in &mine {
         let key = (u.profile.clone(), u.n, u.morsel, u.chain.clone());
         if !baselines.contains_key(&key) {
             let m = u.n.div_ceil(u.morsel);
@@ -773,7 +731,7 @@ fn run(args: vcore::Args) -> i32 {
             baselines.insert(key, o.merged);
         }
     }
-    let outs = vcore::par_map(&bunits, cores, |_, u| {
+    let outs = vcore::par_map(&mine, jobs, |_, u| {
         let chain = model::parse_chain(&u.chain).unwrap();
         let base = baselines.get(&(u.profile.clone(), u.n, u.morsel, u.chain.clone())).cloned().flatten();
         let mut founds = vec![];
@@ -806,19 +764,228 @@ fn run(args: vcore::Args) -> i32 {
         }
         (evals, nt, founds)
     });
-    let mut sched_evals = 0u64;
     for (e, nt, f) in outs {
-        rep.evaluations += e;
-        sched_evals += e;
-        for h in nt {
-            rep.nontrivial_hash(h);
-        }
+        so.evals += e;
+        so.nontrivial.extend(nt);
         for x in f {
             agg.add(x);
         }
     }
-    rep.sample(sched::SCase { profile: "plain".into(), n: 8, chain: "agg-group".into(), morsel: 2, workers: 3, schedule: sched::canonical(&[2, 0, 2, 1], &[1, 2, 0], 3), mode: "canonical".into() }.json());
-    let t_sched = t0.elapsed().as_secs_f64();
+    so.founds = agg.m.into_values().collect();
+    so
+}
+
+/// Thread creation is the dominant cost of the ParallelPipeline runs (every execute() spawns its workers) and
+/// it serialises on the address space of a process: the thread-heavy parts are therefore sharded over child
+/// processes of this same binary (C17_CHILD=i/n:outfile), each running its share sequentially.
+fn run_sharded(tier: Tier, nshards: usize, parts_env: &str, scratch: &Path) -> (ShardOut, ShardOut) {
+    let exe = std::env::current_exe().unwrap_or_else(|e| vcore::machinery_failure(&format!("current_exe: {e}")));
+    let mut children = vec![];
+    for i in 0..nshards {
+        let outfile = scratch.join(format!("shard-{i}.json"));
+        let child = std::process::Command::new(&exe)
+            .args(["--tier", tier.as_str()])
+            .env("C17_CHILD", format!("{i}/{nshards}:{}", outfile.display()))
+            .env("C17_PARTS", parts_env)
+            .stdout(std::process::Stdio::null())
+            .spawn()
+            .unwrap_or_else(|e| vcore::machinery_failure(&format!("cannot spawn shard process: {e}")));
+        children.push((child, outfile));
+    }
+    let (mut cfg, mut sch) = (ShardOut::default(), ShardOut::default());
+    for (mut child, outfile) in children {
+        let st = child.wait().unwrap_or_else(|e| vcore::machinery_failure(&format!("shard wait: {e}")));
+        if !st.success() {
+            vcore::machinery_failure(&format!("shard process failed: {st}"));
+        }
+        let txt = std::fs::read_to_string(&outfile).unwrap_or_else(|e| vcore::machinery_failure(&format!("shard output: {e}")));
+        let v: J = serde_json::from_str(&txt).unwrap_or_else(|e| vcore::machinery_failure(&format!("shard json: {e}")));
+        cfg.absorb(ShardOut::from_json(&v["cfg"]).unwrap_or_else(|| vcore::machinery_failure("shard cfg output malformed")));
+        sch.absorb(ShardOut::from_json(&v["sched"]).unwrap_or_else(|| vcore::machinery_failure("shard sched output malformed")));
+        let _ = std::fs::remove_file(&outfile);
+    }
+    (cfg, sch)
+}
+
+fn run(args: vcore::Args) -> i32 {
+    let tier = args.tier;
+    let thorough = tier == Tier::Thorough;
+    let parts_env = std::env::var("C17_PARTS").unwrap_or_else(|_| "cfg,spill,merge,morsel,sched".into());
+    let on = |p: &str| parts_env.split(',').any(|x| x == p);
+
+    // ---- shard process ------------------------------------------------------
+    if let Ok(spec) = std::env::var("C17_CHILD") {
+        let (ij, outfile) = spec.split_once(':').unwrap_or_else(|| vcore::machinery_failure("bad C17_CHILD"));
+        let (i, n) = ij.split_once('/').unwrap_or_else(|| vcore::machinery_failure("bad C17_CHILD"));
+        let (i, n): (usize, usize) = (i.parse().unwrap_or(0), n.parse().unwrap_or(1));
+        let scratch = vcore::scratch_dir("c17-shard");
+        let items = if on("cfg") { cfg_items(thorough) } else { vec![] };
+        let cfg = run_cfg_shard(&items, i, n, 1, thorough, &scratch);
+        let mut plan = sched_plan(thorough);
+        if !on("sched") {
+            plan.units.clear();
+        }
+        let sch = run_sched_shard(&plan, i, n, 1);
+        let _ = std::fs::remove_dir_all(&scratch);
+        std::fs::write(outfile, serde_json::to_string(&json!({"cfg": cfg.to_json(), "sched": sch.to_json()})).unwrap()).unwrap_or_else(|e| vcore::machinery_failure(&format!("shard write: {e}")));
+        return 0;
+    }
+
+    let scratch = vcore::scratch_dir("c17");
+    if let Some(p) = args.replay.as_deref() {
+        let case = vcore::read_replay_case(p);
+        let rc = replay(&case, &scratch);
+        let _ = std::fs::remove_dir_all(&scratch);
+        return rc;
+    }
+    // debugging aid: time every configuration of one item, e.g. C17_ONLY=unique:2049:sort1
+    if let Ok(only) = std::env::var("C17_ONLY") {
+        let p: Vec<&str> = only.split(':').collect();
+        let (profile, n, chain) = (p[0], p[1].parse::<usize>().unwrap(), model::parse_chain(&p[2..].join(":")).unwrap());
+        let input = tables::table(profile, n);
+        let mut cache = model::Cache::default();
+        let (tags, _) = strategy_tags(&chain, n, tier.pick(4, 16), thorough, false);
+        for t in tags {
+            let t0 = std::time::Instant::now();
+            let (f, _) = run_config_case(profile, n, &input, &mut cache, &chain, &t, 0, &scratch);
+            println!("{:>9.3} ms  {t}  {}", t0.elapsed().as_secs_f64() * 1e3, f.iter().map(|x| x.key()).collect::<Vec<_>>().join(" | "));
+        }
+        let _ = std::fs::remove_dir_all(&scratch);
+        return 0;
+    }
+    let mut rep = Report::new("C17", tier, "exploration");
+    rep.rule = "Part A: every (table profile x size x operator chain) is executed under every strategy configuration (pull tree, push Pipeline, tracked/materialising/spilling push operators, ParallelPipeline x source layout x morsel size x chunk size x workers + merge phase with the helpers of parallel/merge.rs) and judged against a plain-Rust reference on rows plus agreement with the pull result; ExternalSort / PartitionedState under every budget; merge helpers on all 3^n splits of every small input. Part B: every assignment of morsels to workers x every completion order (and all interleavings of the gate protocol for the smallest shapes) is forced on the real threaded ParallelPipeline through gates in the harness-supplied source/factory. A case is distinct by (profile, size, chain, configuration) resp. (helper, alphabet, input, split) resp. (chain, table, schedule); non-trivial when the table has >= 2 rows and the reference result is non-empty (A), the input has >= 2 elements in >= 2 runs (merge), >= 2 workers got a morsel (B)".into();
+    let mut agg = Agg::default();
+    let cores = vcore::cores();
+    let verbose = std::env::var("C17_VERBOSE").is_ok();
+    let mut ran: BTreeMap<(String, String), std::collections::BTreeSet<String>> = BTreeMap::new();
+
+    // ---- Part A: spill engines --------------------------------------------
+    let t0 = std::time::Instant::now();
+    let ext = if on("spill") { spillx::ext_cases(thorough) } else { vec![] };
+    let outs = vcore::par_map(&ext, cores, |_, c| spillx::run_ext(c, &scratch));
+    for (c, o) in ext.iter().zip(outs) {
+        ran.entry(("A-spill".to_string(), c.keys.clone())).or_default().insert(c.profile.clone());
+        rep.evaluations += 1;
+        if c.n >= 2 && c.run_len > 0 && c.n.div_ceil(c.run_len) >= 2 {
+            rep.nontrivial(&("ext", &c.profile, c.n, &c.keys, c.run_len, c.mem_last));
+        }
+        for f in o {
+            agg.add(f);
+        }
+    }
+    let parts = if on("spill") { spillx::part_cases(thorough) } else { vec![] };
+    let outs = vcore::par_map(&parts, cores, |_, c| spillx::run_part(c, &scratch));
+    for (c, o) in parts.iter().zip(outs) {
+        ran.entry(("A-spill".to_string(), "group-accumulate".to_string())).or_default().insert(c.profile.clone());
+        rep.evaluations += 1;
+        if c.n >= 2 && c.policy != "never" {
+            rep.nontrivial(&("part", &c.profile, c.n, c.partitions, &c.policy, c.two_col_key));
+        }
+        for f in o {
+            agg.add(f);
+        }
+    }
+    let t_spill = t0.elapsed().as_secs_f64();
+
+    // ---- Part A: merge helpers on all splits --------------------------------
+    let t0 = std::time::Instant::now();
+    let units = if on("merge") { mergex::units(thorough) } else { vec![] };
+    let outs = vcore::par_map(&units, cores, |_, (helper, alpha, keys, syms)| {
+        let mut founds = vec![];
+        let mut evals = 0u64;
+        let mut nt = vec![];
+        for assign in mergex::assignments(syms.len()) {
+            let c = mergex::MCase { helper: helper.clone(), alphabet: alpha.clone(), keys: *keys, syms: syms.clone(), assign };
+            founds.extend(mergex::run_case(&c));
+            evals += 1;
+            let mut used = c.assign.clone();
+            used.sort();
+            used.dedup();
+            if syms.len() >= 2 && used.len() >= 2 {
+                nt.push(vcore::hash_of(&(helper, alpha, keys, syms, &c.assign)));
+            }
+        }
+        let mut a = Agg::default();
+        for f in founds {
+            a.add(f);
+        }
+        (evals, nt, a.m.into_values().collect::<Vec<_>>())
+    });
+    let mut merge_evals = 0u64;
+    for (e, nt, f) in outs {
+        rep.evaluations += e;
+        merge_evals += e;
+        for h in nt {
+            rep.nontrivial_hash(h);
+        }
+        for (x, k) in f {
+            agg.add_n(x, k);
+        }
+    }
+    let t_merge = t0.elapsed().as_secs_f64();
+
+    // ---- Part A: morsel generation and the scheduler API, sequentially ------------
+    let mut morsel_evals = 0u64;
+    if on("morsel") {
+        let (e1, n1, f1) = schedapi::morsel_cover(tier.pick(40, 80));
+        let (e2, n2, f2) = schedapi::scheduler_all(tier.pick(3, 4), 4);
+        morsel_evals = e1 + e2;
+        rep.evaluations += e1 + e2;
+        rep.nontrivial(&("morsel-cases", n1));
+        rep.nontrivial(&("scheduler-cases-with-stealing", n2));
+        rep.set("nontrivial_morsel_and_scheduler_cases", json!(n1 + n2));
+        for f in f1.into_iter().chain(f2) {
+            agg.add(f);
+        }
+    }
+
+    // ---- Part A configuration product and Part B schedules (thread-heavy) -------
+    let t0 = std::time::Instant::now();
+    let items = if on("cfg") { cfg_items(thorough) } else { vec![] };
+    let cfg_tables: std::collections::BTreeSet<(String, usize)> = items.iter().map(|i| (i.0.clone(), i.1)).collect();
+    for (p, _, c, _, _) in &items {
+        ran.entry(("A-config".to_string(), model::chain_sig(c))).or_default().insert(p.clone());
+    }
+    let mut plan = sched_plan(thorough);
+    if !on("sched") {
+        plan.units.clear();
+    }
+    for u in &plan.units {
+        ran.entry(("B-sched".to_string(), model::chain_sig(&model::parse_chain(&u.chain).unwrap()))).or_default().insert(u.profile.clone());
+    }
+    let in_process = std::env::var("C17_INPROCESS").is_ok();
+    let (cfg, sch) = if in_process {
+        (run_cfg_shard(&items, 0, 1, cores, thorough, &scratch), run_sched_shard(&plan, 0, 1, cores))
+    } else {
+        run_sharded(tier, cores, &parts_env, &scratch)
+    };
+    let t_threads = t0.elapsed().as_secs_f64();
+    if verbose {
+        eprintln!("spill {t_spill:.1}s merge {t_merge:.1}s config+schedules {t_threads:.1}s ({} + {} evaluations)", cfg.evals, sch.evals);
+    }
+    let (cfg_evals, sched_evals, skipped) = (cfg.evals, sch.evals, cfg.skipped);
+    for so in [cfg, sch] {
+        rep.evaluations += so.evals;
+        for h in so.nontrivial {
+            rep.nontrivial_hash(h);
+        }
+        for s in so.samples {
+            rep.sample(s);
+        }
+        for (f, k) in so.founds {
+            agg.add_n(f, k);
+        }
+    }
+    // samples of the other parts
+    if let Some(c) = ext.iter().find(|c| c.n == 33 && c.run_len == 7 && c.mem_last) {
+        rep.sample(c.json());
+    }
+    if let Some(c) = parts.iter().find(|c| c.n == 40 && c.policy == "lru" && c.partitions == 2) {
+        rep.sample(c.json());
+    }
+    rep.sample(mergex::MCase { helper: "sorted-runs".into(), alphabet: "int".into(), keys: 2, syms: vec![0, 1, 1, 3], assign: vec![0, 1, 2, 1] }.json());
+    rep.sample(sched::SCase { profile: "plain".into(), n: 7, chain: "agg-group".into(), morsel: 2, workers: 3, schedule: sched::canonical(&[2, 0, 2, 1], &[1, 2, 0], 3), mode: "canonical".into() }.json());
 
     // ---- wrap up --------------------------------------------------------------
     let left = strat::leftovers(&scratch);
@@ -830,23 +997,29 @@ fn run(args: vcore::Args) -> i32 {
     rep.set(
         "bounds",
         json!({
-            "profiles": tables::PROFILES, "sizes": sizes, "single_chains": single_chains().iter().map(|c| model::chain_name(c)).collect::<Vec<_>>(),
-            "pair_chains": pair_chains().iter().map(|c| model::chain_name(c)).collect::<Vec<_>>(), "config_items": items.len(), "config_tables": cfg_tables.len(), "workers": if thorough { "1..16 for single operators on plain/unique, 1..4 elsewhere" } else { "1..4 for single operators, {1,3} for 2-chains" },
-            "layouts_small": layouts(1, thorough).iter().map(|l| l.tag()).collect::<Vec<_>>(), "layouts_large": layouts(2048, thorough).iter().map(|l| l.tag()).collect::<Vec<_>>(), "spill_thresholds_small": [1, 2, 7, 1000000], "spill_thresholds_large": [1, 64, 1000, 1000000],
-            "morsel_sizes_small": ["critical(1024)", "forced 1", "forced 7", "forced n", "forced n+1"], "morsel_sizes_large": ["critical(1024)", "normal(65536)", "forced n", "forced n+1", "thorough: forced 7, forced 1"], "parallel_chunk_sizes": [1, 3, 2048],
+            "profiles": tables::PROFILES, "sizes_small": SMALL_SIZES, "sizes_large": LARGE_SIZES,
+            "single_chains": single_chains().iter().map(|c| model::chain_name(c)).collect::<Vec<_>>(),
+            "pair_chains": pair_chains().iter().map(|c| model::chain_name(c)).collect::<Vec<_>>(), "config_items": items.len(), "config_tables": cfg_tables.len(),
+            "workers": if thorough { "1..16 for single operators on plain/unique, 1..4 elsewhere" } else { "{1,2,4} for single operators on plain/unique, {1,3} elsewhere" },
+            "layouts_small": layouts(1, thorough).iter().map(|l| l.tag()).collect::<Vec<_>>(), "layouts_large": layouts(2048, thorough).iter().map(|l| l.tag()).collect::<Vec<_>>(),
+            "spill_thresholds_small": [1, 2, 7, 1000000], "spill_thresholds_large": [1, 64, 1000, 1000000],
+            "morsel_sizes_small": ["critical(1024)", "forced 1", "forced 7", "forced n", "forced n+1"], "morsel_sizes_large": ["critical(1024)", "normal(65536)", "forced n", "forced n+1", "thorough: forced 7"], "parallel_chunk_sizes": [1, 3, 2048],
             "max_run_files_per_sort": 200, "spill_configs_skipped_by_run_bound": skipped,
-            "merge_helper_max_len": tier.pick(json!({"sorted": 4, "accumulator": 5, "distinct": 4}), json!({"sorted": 6, "accumulator": 6, "distinct": 5})), "merge_runs": 3,
+            "merge_helper_max_len": tier.pick(json!({"sorted": 4, "accumulator": 4, "distinct": 4}), json!({"sorted": 6, "accumulator": 6, "distinct": 5})), "merge_runs": 3,
+            "morsel_cover": tier.pick("total 0..40 x morsel size 0..41", "total 0..80 x morsel size 0..81"), "scheduler_api": tier.pick("workers 1..3 x morsels 0..4 x every placement (global/local queue) x every get_work order x NUMA on/off", "workers 1..4 x morsels 0..4 x ..."),
+            "schedule_chains": plan.chains,
             "schedule_shapes_canonical": if thorough { "workers 1..3 x 4 morsels; 4 workers x 6 morsels" } else { "workers 1..3 x 4 morsels" },
-            "schedule_interleavings": inter_sizes,
+            "schedule_interleavings": plan.inter_sizes,
         }),
     );
     rep.set("evaluations_config_product", json!(cfg_evals));
     rep.set("evaluations_spill_engines", json!(ext.len() + parts.len()));
     rep.set("evaluations_merge_helpers", json!(merge_evals));
     rep.set("evaluations_schedules", json!(sched_evals));
-    rep.set("schedules_canonical", json!(canonical_count));
-    rep.set("schedules_interleavings", json!(inter_count));
-    rep.set("wall_s_parts", json!({"config": t_cfg, "spill": t_spill, "merge": t_merge, "sched": t_sched}));
+    rep.set("evaluations_morsel_and_scheduler_api", json!(morsel_evals));
+    rep.set("schedules_canonical", json!(plan.canonical));
+    rep.set("schedules_interleavings", json!(plan.interleavings));
+    rep.set("wall_s_parts", json!({"spill": t_spill, "merge": t_merge, "config_and_schedules": t_threads}));
     rep.set("not_reachable", json!("parallel/fold.rs needs a rayon ParallelIterator; rayon is not a dependency of the harness and grafeo-core does not re-export it"));
     rep.assumptions.push("sort keys are homogeneous per column (plus NULL): the comparators of the anchored files return Equal for mixed types, which is not a total order".into());
     rep.assumptions.push("NULL placement of a descending key follows the convention shared by all four sort implementations (flag applied before the direction reversal)".into());
